@@ -144,3 +144,198 @@ def type_lattice(ctx):
 
 
 C.CARTSIG = {2: ("xy",), 3: ("xy", "z"), 4: ("xy", "z", "t")}
+
+
+# ------------------------------------------------------------------------------------------------ known-finding classes
+def classify(q, real, model, registered):
+    """name of the known-finding class a type-lattice disagreement belongs to, or None"""
+    toks = q.split()
+    kind, meth, me = toks[0], toks[1], toks[2]
+    other = toks[3][2:] if len(toks) > 3 and toks[3].startswith("v=") else ""
+
+    def tag(t):
+        return t.split(".")[0] + "." if "." in t else "o"
+    t1, t2 = tag(me), (tag(other) if other else "-")
+    if not registered and "R." in (t1, t2):
+        return "ak-record-unregistered"
+    if kind == "O" and meth in ("eq", "ne") and "R." in (t1, t2) and real.startswith("!! AssertionError"):
+        return "ak-record-eq-operator"
+    if kind == "O" and meth in ("add", "sub") and {t1, t2} in ({"A.", "N."}, {"R.", "N."}) and real.startswith("-> A.g") and model.startswith("-> A.m"):
+        return "operator-flavor-awkward-numpy"
+    if meth.startswith("boost") and t1 == "o" and t2 in ("A.", "R.") and ":tau:" in me and real.startswith("!! TypeError"):
+        return "object-tau-boost-by-awkward"
+    return None
+
+
+def type_lattice_classified(ctx, registered):
+    """run the type lattice in this process (unregistered) or a subprocess (registered) -> (n requests, [(q, real, model, class)])"""
+    if not registered:
+        reqs, bad = type_lattice(ctx)
+        return len(reqs), [(q, a, b, classify(q, a, b, False)) for q, a, b in bad]
+    import json
+    import subprocess
+    import sys
+    code = ("import sys, json; sys.path.insert(0, %r); sys.path.insert(0, %r)\nimport vector; vector.register_awkward()\n"
+            "from harness import backends as Bk\nclass X: seed=%d; tier=%r\nreqs, bad = Bk.type_lattice(X)\n"
+            "print('JSON' + json.dumps([len(reqs), bad]))\n" % (C.VERIF, C.VERIF + "/tools", ctx.seed, ctx.tier))
+    p = subprocess.run([sys.executable, "-c", code], capture_output=True, text=True, timeout=1800)
+    line = [l for l in p.stdout.splitlines() if l.startswith("JSON")]
+    if not line:
+        raise RuntimeError("registered-mode type lattice failed: " + p.stderr[-400:])
+    n, bad = json.loads(line[0][4:])
+    return n, [(q, a, b, classify(q, a, b, True)) for q, a, b in bad]
+
+
+# ------------------------------------------------------------------------------------------------ C03: values
+VAL_UNARY = ["x", "y", "rho", "phi", "z", "theta", "eta", "mag", "costheta", "t", "tau", "beta", "gamma", "rapidity", "mag2", "tau2"]
+VAL_UNARY_VEC = [("rotateZ", [0.7]), ("rotateX", [-1.1]), ("scale", [-1.5]), ("scale", [2.0]), ("unit", []), ("to_xyz", []),
+                 ("to_rhophieta", []), ("to_beta3", []), ("boostX", [0.4]), ("rotate_euler", [0.3, 1.2, -0.4, "yxz"]),
+                 ("to_Vector4D", []), ("neg3D", []), ("to_rhophithetatau", []), ("to_xyzt", [])]
+VAL_BINARY = ["add", "subtract", "dot", "deltaR", "deltaphi", "deltaangle", "cross", "boost_p4", "boost_beta3", "equal", "isclose", "is_parallel"]
+
+
+def close64(a, b, scale):
+    if isinstance(a, (bool, numpy.bool_)) or isinstance(b, (bool, numpy.bool_)):
+        return bool(a) == bool(b)
+    a, b = float(a), float(b)
+    if math.isnan(a) or math.isnan(b):
+        return math.isnan(a) and math.isnan(b)
+    if math.isinf(a) or math.isinf(b):
+        return a == b
+    return abs(a - b) <= 1e-12 * max(1.0, abs(a), abs(b), scale)
+
+
+def elem_value(r):
+    """canonical form of one element of a result: ('v', names, values) or ('s', value)"""
+    import awkward as ak
+    if isinstance(r, vector.backends.object.VectorObject):
+        return ("v", tuple(C.signames(C.sig_of(r))), [float(x) for x in C.stored(r)])
+    if isinstance(r, ak.Record):
+        names = tuple(GEN.get(n, n) for n in ak.fields(r))
+        return ("v", names, [float(r[n]) for n in ak.fields(r)])
+    if isinstance(r, numpy.void):
+        names = tuple(GEN.get(n, n) for n in r.dtype.names)
+        return ("v", names, [float(r[n]) for n in r.dtype.names])
+    return ("s", r)
+
+
+def flatten_result(res, n):
+    """list of per-element results of an array-valued result of length n"""
+    import awkward as ak
+    if isinstance(res, vector.backends.numpy.VectorNumpy):
+        return [elem_value(res.view(numpy.ndarray)[i]) for i in range(n)]
+    if isinstance(res, numpy.ndarray):
+        return [("s", res[i]) for i in range(n)]
+    if isinstance(res, ak.Array):
+        if ak.fields(res):
+            names = tuple(GEN.get(f, f) for f in ak.fields(res))
+            cols = [ak.to_list(res[f]) for f in ak.fields(res)]
+            return [("v", names, [float(c[i]) for c in cols]) if all(c[i] is not None for c in cols) else None for i in range(n)]
+        return [("s", x) if x is not None else None for x in ak.to_list(res)]
+    return [elem_value(res)] * n   # scalar / single object broadcast
+
+
+def compare_elem(a, b, scale):
+    if a is None or b is None:
+        return a is None and b is None
+    if a[0] != b[0]:
+        return False
+    if a[0] == "s":
+        return close64(a[1], b[1], scale)
+    return a[1] == b[1] and all(close64(x, y, scale) for x, y in zip(a[2], b[2]))
+
+
+def value_lattice(ctx):
+    """element i of an array result == object-backend result for element i  (C03)"""
+    import awkward as ak
+    r = C.rng(ctx.seed, "value-lattice")
+    bad, n_calls, n_elems, samples = [], 0, 0, []
+    dist = {}
+    sigs = C.ALLSIGS if ctx.tier == "thorough" else None
+    for dim in (2, 3, 4):
+        dsigs = C.SIGS[dim] if sigs else r.sample(C.SIGS[dim], min(4, len(C.SIGS[dim])))
+        for sig in dsigs:
+            for fl in ("g", "m") if ctx.tier == "thorough" else (r.choice("gm"),):
+                pts = C.strata_points(dim, r, n_random=4)
+                r.shuffle(pts)
+                rows = [C.cart_to_stored(sig, p) for p in pts[:6]]
+                scale = max(abs(x) for row in rows for x in row)
+                objs = [C.obj_vec(fl, sig, row) for row in rows]
+                arrs = {"N.": C.np_array(fl, sig, rows), "A.": C.ak_array(fl, sig, rows),
+                        "J.": ak.unflatten(C.ak_array(fl, sig, rows), [2, 0, 3, 1]),
+                        "O.": ak.mask(C.ak_array(fl, sig, rows), [True, True, False, True, True, False])}
+                # second operand
+                sig2 = r.choice(C.SIGS[dim])
+                fl2 = r.choice("gm")
+                rows2 = [C.cart_to_stored(sig2, p) for p in C.strata_points(dim, r, n_random=8)[-6:]]
+                objs2 = [C.obj_vec(fl2, sig2, row) for row in rows2]
+                arrs2 = {"N.": C.np_array(fl2, sig2, rows2), "A.": C.ak_array(fl2, sig2, rows2), "o": objs2[0]}
+                b3rows = [[0.1 * x for x in C.cart_to_stored(("xy", "z"), p)] for p in C.strata_points(3, r, n_random=8)[-6:]]
+                for tag, arr in arrs.items():
+                    flat = ak.flatten(arr, axis=None) if False else arr
+                    calls = [(m, [], False) for m in VAL_UNARY] + [(m, a, False) for m, a in VAL_UNARY_VEC]
+                    for m, a, _ in calls:
+                        if not hasattr(objs[0], m):
+                            continue
+                        n_calls += 1
+                        try:
+                            at = getattr(arr, m)
+                            res = at(*a) if callable(at) else at
+                        except Exception as e:  # noqa: BLE001
+                            bad.append((f"{m}{a} on {tag}{fl}:{sig}", f"array backend raises {type(e).__name__}: {str(e)[:80]}", "values:" + tag + m))
+                            continue
+                        want = []
+                        for o in objs:
+                            ao = getattr(o, m)
+                            want.append(elem_value(ao(*a) if callable(ao) else ao))
+                        if tag == "J.":
+                            if [len(x) for x in ak.to_list(res if not ak.fields(res) else res[ak.fields(res)[0]])] != [2, 0, 3, 1]:
+                                bad.append((f"{m} on jagged {fl}:{sig}", "list structure not preserved", "structure:" + m))
+                                continue
+                            res = ak.flatten(res)
+                        if tag == "O.":
+                            want = [w if i not in (2, 5) else None for i, w in enumerate(want)]
+                        got = flatten_result(res, len(rows))
+                        for i, (g, w) in enumerate(zip(got, want)):
+                            n_elems += 1
+                            if not compare_elem(g, w, scale):
+                                bad.append((f"{m}{a} on {tag}{fl}:{sig} element {i} stored {rows[i]}", f"array {g} object {w}", f"values:{tag}{m}"))
+                                break
+                        dist[tag] = dist.get(tag, 0) + 1
+                    if tag in ("J.", "O."):
+                        continue
+                    for t2, other in arrs2.items():
+                        for m in VAL_BINARY:
+                            if not hasattr(objs[0], m):
+                                continue
+                            if m == "boost_beta3":
+                                other_b = {"N.": C.np_array("g", ("xy", "z"), b3rows), "A.": C.ak_array("g", ("xy", "z"), b3rows),
+                                           "o": C.obj_vec("g", ("xy", "z"), b3rows[0])}[t2]
+                                oth_objs = [C.obj_vec("g", ("xy", "z"), rw) for rw in b3rows]
+                            else:
+                                other_b, oth_objs = other, objs2
+                            n_calls += 1
+                            try:
+                                res = getattr(arr, m)(other_b)
+                                raised = None
+                            except Exception as e:  # noqa: BLE001
+                                raised = type(e).__name__
+                            try:
+                                want = [elem_value(getattr(o, m)(oth_objs[0] if t2 == "o" else oth_objs[i])) for i, o in enumerate(objs)]
+                                wraised = None
+                            except Exception as e:  # noqa: BLE001
+                                wraised = type(e).__name__
+                            if raised or wraised:
+                                if raised != wraised:
+                                    bad.append((f"{m} {tag}{fl}:{sig} with {t2}{fl2}:{sig2}", f"array raises {raised}, object raises {wraised}", f"raises:{tag}{t2}{m}"))
+                                continue
+                            got = flatten_result(res, len(rows))
+                            for i, (g, w) in enumerate(zip(got, want)):
+                                n_elems += 1
+                                if not compare_elem(g, w, scale):
+                                    bad.append((f"{m} {tag}{fl}:{sig} with {t2}{fl2}:{sig2} element {i}: {rows[i]} / {rows2[i]}", f"array {g} object {w}", f"values:{tag}{t2}{m}"))
+                                    break
+                            dist[tag + t2] = dist.get(tag + t2, 0) + 1
+                if len(samples) < 3:
+                    samples.append({"sig": sig, "flavor": fl, "rows": rows[:2], "second": [sig2, fl2]})
+    return bad, {"calls": n_calls, "elements_compared": n_elems, "backend_distribution": dist}, samples
